@@ -40,7 +40,9 @@ type CPlan struct {
 	Strategy  int      `json:"strategy"`
 	StickyMod int      `json:"sticky_mod"`
 	Inner     bool     `json:"inner_yields"` // also pre-empt inside the list's critical sections
-	Ticker    bool     `json:"ticker"`       // one extra task calls Maintain every 500 ms (as cmd/auparse does)
+	Auto      uint32   `json:"auto_density"` // 0: off; d: honour statement-level points whose hash is 0 mod d
+	AutoSalt  uint32   `json:"auto_salt"`
+	Ticker    bool     `json:"ticker"` // one extra task calls Maintain every 500 ms (as cmd/auparse does)
 	Ticks     int      `json:"ticks"`
 }
 
@@ -85,7 +87,7 @@ var cProbeNames = []string{"context_switch_at_internal_yield", "callback_reenter
 	"message_left_buffered_push_returned_after_close", "event_delivered_after_close_returned", "ticker_maintain_flushed", "two_or_more_close_calls",
 	"close_ran_between_put_and_cleanup", "switch_inside_callback", "message_never_delivered_allowed", "task_seen_blocked_on_lock"}
 
-var cFaultNames = []string{"stalled_task", "clock_step", "reentrant_callback", "already_expired_timeout", "concurrent_close"}
+var cFaultNames = []string{"stalled_task", "clock_step", "reentrant_callback", "already_expired_timeout", "concurrent_close", "statement_level_preemption"}
 
 const (
 	cfStall = iota
@@ -93,6 +95,7 @@ const (
 	cfReenter
 	cfExpired
 	cfConcClose
+	cfAuto
 	nCFaults
 )
 
@@ -166,7 +169,12 @@ func GenCPlan(r *core.Rng) *CPlan {
 	p.Strategy = r.Intn(2)
 	p.StickyMod = core.Pick(r, 2, 3, 5, 8)
 	p.Inner = r.Chance(1, 3)
+	p.Auto = core.Pick(r, uint32(0), 0, 0, 1, 2, 3, 5, 8)
+	p.AutoSalt = r.U32()
 	n := r.Range(0, 80)
+	if p.Auto != 0 {
+		n = r.Range(20, 200)
+	}
 	for i := 0; i < n; i++ {
 		p.Tape = append(p.Tape, uint16(r.Intn(1<<16)))
 	}
@@ -280,7 +288,7 @@ func ExecCPlan(p *CPlan, trace bool) *core.Result {
 	res := &core.Result{Probes: make([]int, nCProbes), Faults: make([]int, nCFaults)}
 	h := concHist
 	h.Reset()
-	sc := core.NewSched(h, p.Tape, 4000)
+	sc := core.NewSched(h, p.Tape, 8000)
 	sc.Strategy = p.Strategy
 	sc.StickyMod = p.StickyMod
 	start := sc.Start
@@ -360,15 +368,20 @@ func ExecCPlan(p *CPlan, trace bool) *core.Result {
 		})
 	}
 	setInnerYields(p.Inner)
+	setAuto(p.Auto, p.AutoSalt)
 	setActiveSched(sc)
 	verdict := sc.Run()
 	setActiveSched(nil)
 	setInnerYields(false)
+	setAuto(0, 0)
 	res.Verdict = verdict
 	res.SchedHash = sc.SchedHash
 	res.Steps = sc.Steps
 	res.SimNs = int64(time.Since(start))
 	res.Probes[cprLockBlocked] += sc.LockBlocks
+	if p.Auto != 0 {
+		res.Faults[cfAuto]++
+	}
 	res.Faults[cfClock] += sc.ClockJumps
 	if len(p.Reenter) > 0 {
 		res.Faults[cfReenter]++
